@@ -308,6 +308,11 @@ int ares_init_options(ares_channel_t           **channelptr,
     goto done;
   }
 
+  /* The default socket functions must be in place before any configuration is
+   * read: resolving the interface of an IPv6 link-local nameserver
+   * (e.g. "nameserver fe80::1%eth0" in resolv.conf) goes through them. */
+  ares_set_socket_functions_def(channel);
+
   /* Initialize configuration by each of the four sources, from highest
    * precedence to lowest.
    */
@@ -348,8 +353,6 @@ int ares_init_options(ares_channel_t           **channelptr,
                    ares_strerror(status)));
     goto done;
   }
-
-  ares_set_socket_functions_def(channel);
 
   /* Initialize the event thread */
   if (channel->optmask & ARES_OPT_EVENT_THREAD) {
